@@ -75,6 +75,16 @@ CLAIMED = {
          "temporary index attribute removed'; (c) traversals, searches, basic_render and the PlantUML helpers pass a syntactic effect analysis: no "
          "attribute store/delete, in-place operations only on containers they allocate, every callee read-only by (a) or a user callback (A7). "
          "nrpickler.dumps / pyvis internals: assumed not to write to edgegraph objects (A10)."),
+ "C15": ("proof", "12.5/C15", "make_pyvis_net is verified on all paths against a functional contract taken from the statement, over an ASSUMED contract of "
+         "the third-party class pyvis.network.Network (add_node appends unless the id exists; add_edge raises AssertionError unless both ids are nodes, "
+         "skips a pair already joined in an undirected network, otherwise appends (from, to, arrow = directed); listed as an assumption and compared "
+         "with the real pyvis by the explorer on every thorough run and whenever an obligation fails). Proved: node ids are 0..n-1 in universe order "
+         "with labels rvfunc(v) (or hex(id(v))); there is a ghost sequence GL of distinct links - each with both ends members, listed at its first end - "
+         "such that the from / to / arrow columns are the images of GL under (id of v1, id of v2, is-DirectedEdge): every edge stands for a real link "
+         "between the two members it joins, arrowed exactly for directed links and in v1 -> v2 orientation, one record per link; conversely every link "
+         "from a member to a member (self-loops included) has a record, or is not a DirectedEdge and its pair of nodes is already joined; nothing is "
+         "produced for vertices outside the universe; attributes are as before (temporary marker removed). Assumes callbacks that return and "
+         "two-ended links with vertex ends at members."),
  "C16": ("proof", "6/C16", "basic_render is verified against a string-level specification (z3 strings): None for an empty universe, otherwise "
          "'\\n'.join of one line per member in universe order (or sorted by the key), line(v) = r(v) ++ ' -> ' ++ ', '.join(r(w) for w in FORWARD "
          "neighbours of v in neighbors() order (or sorted)), r = rfunc or repr. Inner-loop invariant: line = r(v) ++ ' -> ' ++ trailing-comma join, "
